@@ -806,7 +806,7 @@ class SymExec:
                     st.heap[(args[0], n)] = new
                 st.pc = base
                 return NONE_T
-        if name in ("map", "filter") and len(args) == 2 and args[0][0] in ("lambda", "funcref", "classref"):
+        if name in ("map", "filter") and len(args) == 2 and args[0][0] in ("lambda", "funcref", "classref", "bound"):
             bv = ("bv", self.binders)
             self.binders += 1
             try:
@@ -823,6 +823,8 @@ class SymExec:
     def apply(self, fterm: Term, args: list, st: State, fr: Frame, call: ast.Call) -> Term:
         if fterm[0] == "classref":
             return self.construct(fterm[1], args, {}, False, call, st, fr)
+        if fterm[0] == "bound":
+            return self.interpret(fterm[2], self.bind(fterm[2], fterm[1], False, args, {}, fterm, fr), st)
         target = fterm[1]
         via_class = fterm[0] == "funcref" and target.cls is not None and target.outer is None and not target.is_staticmethod and not target.is_classmethod
         env = self.bind(target, None, via_class, args, {}, fterm, fr)
